@@ -72,6 +72,9 @@ def centroid_1dg(data, error=None, mask=None):
     (data, error), _ = process_quantities((data, error), ('data', 'error'))
 
     data = np.ma.asanyarray(data)
+    # use a new mask array so that the mask of an input MaskedArray is
+    # never modified in place below
+    data = np.ma.MaskedArray(data.data, mask=np.ma.getmaskarray(data).copy())
 
     if mask is not None and mask is not np.ma.nomask:
         mask = np.asanyarray(mask)
@@ -225,6 +228,9 @@ def centroid_2dg(data, error=None, mask=None):
     (data, error), _ = process_quantities((data, error), ('data', 'error'))
 
     data = np.ma.asanyarray(data)
+    # use a new mask array so that the mask of an input MaskedArray is
+    # never modified in place below
+    data = np.ma.MaskedArray(data.data, mask=np.ma.getmaskarray(data).copy())
 
     if mask is not None and mask is not np.ma.nomask:
         mask = np.asanyarray(mask)
